@@ -971,7 +971,15 @@ func c14RegisterOnSuccess(p *Prog, r *Report, hs, reg *ssa.Function, fam map[*ss
 	ehF := p.Field("proxycore", "ClientConn", "eventHandler")
 	s := newSim(p)
 	s.Tracked[ehF] = true
-	s.Inline = func(fn *ssa.Function) bool { return step[fn] && fn != reg }
+	errT := types.Universe.Lookup("error").Type()
+	s.Inline = func(fn *ssa.Function) bool {
+		if step[fn] && fn != reg {
+			return true
+		}
+		// a small constructor of an error value (straight-line code returning one error)
+		res := fn.Signature.Results()
+		return fn != reg && fn.Pkg == hs.Pkg && fn.Parent() == nil && len(fn.Blocks) == 1 && res.Len() == 1 && types.Identical(res.At(0).Type(), errT)
+	}
 	s.Effect = func(call ssa.CallInstruction, callee *ssa.Function) []string {
 		if callee == reg {
 			return []string{"register"}
